@@ -121,6 +121,27 @@ def writer_code_objects(all_codes):
     return out
 
 
+def iteration_lines(codes):
+    """Lines inside `for` loops (and inlined comprehensions) whose iterable is reached through an attribute:
+    candidates for 'somebody else changes the container while I iterate it in Python code'."""
+    import dis
+
+    out = set()
+    for code in codes:
+        ins = list(dis.get_instructions(code))
+        for i, x in enumerate(ins):
+            if x.opname != "GET_ITER" or not any(p.opname == "LOAD_ATTR" for p in ins[max(0, i - 6) : i]):
+                continue
+            for j in range(i + 1, min(i + 4, len(ins))):
+                if ins[j].opname == "FOR_ITER":
+                    start, end = ins[j].offset, ins[j].argval
+                    for y in ins:
+                        if start <= y.offset < end and y.positions and y.positions.lineno:
+                            out.add(short_loc(code, y.positions.lineno))
+                    break
+    return out
+
+
 def line_table(codes):
     """All 'file:line' locations of the given code objects."""
     out = set()
@@ -239,7 +260,7 @@ def install_sim_locks(sched):
 
 
 class Scheduler:
-    def __init__(self, nthreads, rng=None, schedule=None, p_preempt=0.3, loc_cap=2, max_switches=64, step_cap=5_000_000, hot=(), p_hot=0.9):
+    def __init__(self, nthreads, rng=None, schedule=None, p_preempt=0.3, loc_cap=2, max_switches=64, step_cap=5_000_000, hot=(), p_hot=0.9, hot_skip=0):
         self.n = nthreads
         self.rng = rng
         self.explicit = schedule is not None
@@ -252,6 +273,8 @@ class Scheduler:
         self.p = p_preempt
         self.hot = frozenset(hot)
         self.p_hot = p_hot
+        self.hot_skip = hot_skip
+        self.hot_visits = {}
         self.hot_hits = 0
         self.loc_cap = loc_cap
         self.max_switches = max_switches
@@ -344,7 +367,13 @@ class Scheduler:
                 hits = self.loc_hits.get(key, 0)
                 if hits < self.loc_cap:
                     is_hot = loc in self.hot
-                    if self.rng.random() < (self.p_hot if is_hot else self.p):
+                    prob = self.p_hot if is_hot else self.p
+                    if is_hot and self.hot_skip:
+                        seen = self.hot_visits.get(key, 0)
+                        self.hot_visits[key] = seen + 1
+                        if seen < self.hot_skip:
+                            prob = 0.0  # let the first visits pass: pre-empt in the middle of the loop
+                    if self.rng.random() < prob:
                         self.hot_hits += is_hot
                         self.loc_hits[key] = hits + 1
                         others = self.runnable(t)
